@@ -89,6 +89,11 @@ Apis_C33 == {Api("Connect"), SleepApi(10), Api("Disconnect"), Api("Close"),
              [ApiT("Publish", <<"xy">>, 1, "") EXCEPT !.short = TRUE, !.stid = 30841]}
 Gw_C33 == {Gw("CONNACK", "none"), Gw("DISCONNECT", "none"), Gw("PINGRESP", "none"), GwAck("PUBACK", "pend", 30841)}
 
+---- (* C16 client half: gateway REGISTER retransmitted / repeated, followed by publishes *)
+Apis_C16 == {ApiT("Publish", AB, 1, ""), ApiT("Subscribe", <<"#">>, 0, "h1")}
+Gw_C16 == {GwReg(AB, 7), GwReg(AB, 8), GwReg(AC, 8), GwReg(AC, 7), GwPub(0, 0, 7, <<>>, "none"), GwPub(1, 0, 8, <<>>, "any"),
+           GwAck("SUBACK", "pend", 0), GwAck("PUBACK", "pend", 7)}
+
 ---- (* C06 client half: coinciding message IDs of the two directions *)
 Apis_C06 == {ApiT("Publish", AB, 1, ""), ApiT("Publish", AB, 2, ""), ApiT("Subscribe", AB, 1, "h1"), ApiT("Register", AC, 0, "")}
 Gw_C06 == {GwPub(2, 0, 7, <<>>, "any"), Gw("PUBREL", "any"), GwAck("PUBACK", "pend", 7), Gw("PUBREC", "pend"),
